@@ -1087,8 +1087,89 @@ let run_c12 file =
   close_in ic;
   Printf.printf "SUMMARY cases=%d disagreements=%d impl_failures=%d impl_errors=0 concurrent_results=%d race_reports=%d model_threads=%d\n" !n !n_dis !n_fail !n_res !n_races !n_threads
 
+(* ---------- C06 ---------- *)
+let refkind_of_string (s : string) : refkind =
+  match String.split_on_char ':' s with
+  | "content" :: pk :: rest -> RContent (explode pk, explode (String.concat ":" rest))
+  | ["script"; "top"] -> RScriptTop
+  | ["script"; f] -> RScriptOf (explode f)
+  | ["changelog"] -> RChangelog
+  | ["key"; f] -> RKeyOf (explode f)
+  | _ -> failwith ("reference kind " ^ s)
+
+let c06_clause_name = function
+  | WSilent (k, mode) -> Printf.sprintf "success-although-write-%d-failed(%s)" (int_of_nat k) (implode mode)
+  | WCount -> "destination-write-count"
+  | RSilent f -> "success-although-file-unreadable:" ^ implode f
+  | ISilent (c, f) -> Printf.sprintf "invalid-setting-accepted:%s:%s" (implode c) (implode f)
+  | CExit n -> "cli-exit-status:" ^ implode n
+  | CTargetLeft n -> "cli-target-left-behind:" ^ implode n
+  | CCauseMissing n -> "cli-cause-not-printed:" ^ implode n
+  | CNoPackage n -> "cli-no-package-written:" ^ implode n
+
+let run_c06 file =
+  let n = ref 0 and n_dis = ref 0 and n_fail = ref 0 and n_w = ref 0 and n_r = ref 0 and n_i = ref 0 and n_c = ref 0 in
+  let ic = open_in file in
+  let id = ref "" and fmt = ref "" and base_w = ref 0 and odd = ref [] and faults = ref [] and clauses = ref [] and detail = ref [] and mclauses = ref [] in
+  let finish () =
+    incr n;
+    if !clauses <> [] || !mclauses <> [] then begin
+      incr n_dis; if !clauses <> [] then incr n_fail;
+      report !id false (List.rev !clauses) (List.rev !mclauses) (List.rev !detail)
+    end in
+  let add cls d = List.iter (fun c -> match c with
+      | WCount -> mclauses := c06_clause_name c :: !mclauses
+      | _ -> clauses := c06_clause_name c :: !clauses) cls;
+    if cls <> [] then detail := d :: !detail in
+  (try
+     while true do
+       let line = input_line ic in
+       let t = Array.of_list (String.split_on_char ' ' line) in
+       match t.(0) with
+       | "wcase" | "rcase" | "icase" | "ccase" ->
+         id := t.(1); clauses := []; mclauses := []; detail := []; faults := []; odd := []; base_w := 0;
+         if t.(0) = "wcase" then fmt := unhexs t.(2)
+       | "wbase" ->
+         if t.(1) = "ok" then begin
+           base_w := int_of_string t.(2);
+           odd := List.map (fun s -> int_of_string s mod 2 = 1) (List.filter (fun s -> s <> "") (Array.to_list (Array.sub t 4 (Array.length t - 4))))
+         end
+       | "wf" ->
+         incr n_w;
+         faults := ((nat_of_int (int_of_string t.(1)), explode t.(2)), t.(3) = "1", t.(4) = "1", (if Array.length t > 6 then unhexs t.(6) else "")) :: !faults
+       | "wend" ->
+         let fs = List.rev_map (fun ((k, m), hit, nil, _) -> (((k, m), hit), nil)) !faults in
+         let o = { w_format = explode !fmt; w_writes = nat_of_int !base_w; w_odd = !odd; w_faults = fs } in
+         add (check_write o)
+           (Printf.sprintf "%s: %d destination writes without faults (model for deb: %d); faults that went unreported: %s" !fmt !base_w
+              (int_of_nat (deb_dest_writes !odd))
+              (String.concat ", " (List.filter_map (fun ((k, m), hit, nil, _) -> if hit && nil then Some (Printf.sprintf "write %d (%s)" (int_of_nat k) (implode m)) else None) (List.rev !faults))));
+         finish ()
+       | "rref" ->
+         incr n_r;
+         let kind = unhexs t.(1) and f = unhexs t.(3) in
+         add (check_ref (refkind_of_string kind) (explode f) (t.(4) = "1"))
+           (Printf.sprintf "%s %s made unreadable: %s packaging returned nil" kind (unhexs t.(2)) f)
+       | "rend" | "iend" | "cend" -> finish ()
+       | "iset" ->
+         incr n_i;
+         let cl = unhexs t.(1) and f = unhexs t.(2) in
+         add (check_invalid (explode cl) (explode f) (t.(3) = "1")) (Printf.sprintf "%s: %s packaging returned nil" cl f)
+       | "cli" ->
+         incr n_c;
+         let name = unhexs t.(1) and f = unhexs t.(2) in
+         add (check_cli_run (explode name) (t.(3) = "0") (t.(4) = "1") (t.(5) = "1"))
+           (Printf.sprintf "nfpm package -p %s (%s): exit %s, target %s, last output line: %s" f name t.(3)
+              (if t.(4) = "1" then "exists" else "absent") (if Array.length t > 6 then unhexs t.(6) else ""))
+       | _ -> ()
+     done
+   with End_of_file -> ());
+  close_in ic;
+  Printf.printf "SUMMARY cases=%d disagreements=%d impl_failures=%d impl_errors=0 write_faults=%d reference_faults=%d invalid_settings=%d cli_runs=%d\n" !n !n_dis !n_fail !n_w !n_r !n_i !n_c
+
 let () =
   match Sys.argv with
+  | [| _; "C06"; file |] -> run_c06 file
   | [| _; "C12"; file |] -> run_c12 file
   | [| _; "C11"; file |] -> run_c11 file
   | [| _; "C13"; file |] -> run_c13 file
